@@ -203,10 +203,13 @@ def compress(eng, st, o, m):
     """a[mask] : the sub-sequence of cells whose mask is true (fresh array)"""
     n = o.shape[0]
     if isinstance(n, int):
+        ms = [to_bool(m.at(k)) for k in range(n)]
         if o.ndim != 1:
+            if m.ndim == 1 and all(isinstance(b, bool) for b in ms):
+                keep = [k for k in range(n) if ms[k]]          # concrete 1-D mask on an N-D array: the selected rows
+                return new_ref(st, ArrV((len(keep),) + tuple(o.shape[1:]), lambda i, *r, o=o, keep=keep: o.at(eng.select(keep, i), *r), o.dtype))
             raise OutOfSubset('boolean mask on 2-D array')
         # concrete length: enumerate subsets symbolically via prefix counts
-        ms = [to_bool(m.at(k)) for k in range(n)]
         if all(isinstance(b, bool) for b in ms):
             items = [o.at(k) for k in range(n) if ms[k]]
             res_ref = new_ref(st, ArrV((len(items),), lambda i, items=items: eng.select(items, i), o.dtype))
@@ -934,6 +937,15 @@ def np_lstsq(eng, st, args, kwargs):
         raise OutOfSubset('lstsq with a coefficient matrix whose width is not a constant')
     b = arr_of(eng, st, args[1])
     eng.oblige('safe', 'lstsq-shape', st, eq(a.shape[0], b.shape[0]))
+    if isinstance(a.shape[0], int) and isinstance(b.shape[0], int) and b.ndim == 1:
+        av = [[concrete(a.at(i, j)) for j in range(a.shape[1])] for i in range(a.shape[0])]
+        bv = [concrete(b.at(i)) for i in range(b.shape[0])]
+        if all(x is not None for row in av for x in row) and all(x is not None for x in bv) and len(av) == len(bv) and len(av) > 0:
+            import numpy as _np          # concrete evaluation (translation cross-check / native replay)
+            sol_c = [float(x) for x in _np.linalg.lstsq(_np.array(av, dtype=float), _np.array(bv, dtype=float), rcond=None)[0]]
+            sol = new_ref(st, ArrV((a.shape[1],), lambda i, sol_c=sol_c: eng.select(sol_c, i), 'real'))
+            yield (sol, Obj('lstsq.residuals'), Obj('lstsq.rank'), Obj('lstsq.sv')), st
+            return
     cells = [z3.Real(fresh_name('lstsq')) for _ in range(a.shape[1])]
     sol = new_ref(st, ArrV((a.shape[1],), lambda i, cells=cells: eng.select(cells, i), 'real'))
     yield (sol, Obj('lstsq.residuals'), Obj('lstsq.rank'), Obj('lstsq.sv')), st
